@@ -16,6 +16,8 @@ Expand(s) == CASE s = 1 -> K_NOTES
                [] s = 5 -> Lower(K_NOTES)
                [] s = 6 -> <<86, 101, 114, 115, 105, 111, 110>>      \* "Version"
                [] s = 7 -> <<COLON, COLON, COLON, COLON, COLON, COLON>>  \* six empty components
+               [] s = 8 -> <<HASH>> \o K_NOTEDATA \o <<COLON, SEMI, HASH>> \o K_NOTES \o <<COLON, 97, SEMI>>  \* "#NOTEDATA:;#NOTES:a;"
+               [] s = 9 -> K_NOTES2
                [] OTHER -> <<s>>
 Text == Concat([k \in DOMAIN syms |-> Expand(syms[k])])
 
